@@ -45,16 +45,22 @@ PROP = dict(
         "Edwards->Montgomery conversion of the peer key with its failure, own scalar = clamp(SHA-512(seed)[0:32]), clamp_spec); the curve "
         "operations edPub / toMont / x25519 / sha512 are parameters (structure Curve). handshake_accept keeps the weaker form with the shared "
         "secret as a free variable. Checked on the implementation by go.adnl.dh (tongo's curve25519-voi path vs crypto/ecdh + math/big) and "
-        "by every network case",
+        "by every network case. TIE of the keys.go model, everything except the scalar multiplication: adnl.keyid (Address.hash vs keyId), "
+        "adnl.scalar (the private-key conversion sharedKey uses vs clamp(SHA-512(seed)[0:32]) with the model's SHA-512), adnl.tomont (does "
+        "sharedKey accept the peer key — invalid encodings and small-order points rejected — and the Montgomery u vs the model's executable "
+        "toMontSpec / isLowOrderU), go.adnl.sharedkey (sharedKey = X25519(that scalar, that u) with crypto/ecdh), go.adnl.newkeys (the PUBLIC "
+        "key newKeys sends is the one whose owner shares the returned secret); x25519.X25519's error on an all-zero result is modelled "
+        "(handshake_low_order_server_key)",
         "AES-256-CTR and SHA-256 are parameters of the theorems (any keystream function, any hash)",
         "TCP is modelled as a reliable byte stream; io.ReadFull as 'take n bytes when available' (not-yet = no result, no error)",
         "Go's types fix the lengths the model takes as hypotheses: nonce [32]byte, params [160]byte, Ed25519 public key 32 bytes",
     ],
     partial=[
         "corruption_never_delivered (def, NOT a theorem): 'no alteration whatsoever is delivered' is probabilistic for a real hash. "
-        "What IS proved: altered_stream_delivered_iff_checksum — for an ARBITRARY byte stream (any corruption, any trailing frames) a packet "
-        "is delivered iff the decrypted length is in bounds, enough bytes follow and the last 32 decrypted bytes equal H of the bytes before "
-        "them (no hash assumption: corruption is delivered only through that coincidence); altered_body_delivered_iff_collision (delivered iff "
+        "What IS proved: delivered_iff_wellformed_frame_prefix — parser = frame grammar: for an ARBITRARY byte stream (any corruption, any "
+        "trailing frames) ParsePacket delivers (q, r) iff the stream is the encryption of a WellFormedFrame for q (a description of a frame "
+        "that does not mention the parser) followed by r; marshal_is_wellformed (no hash assumption: corruption is delivered only if it "
+        "produced another well-formed frame). The guard-level unfolding of parsePacket is only a lemma (parse_delivers_iff); altered_body_delivered_iff_collision (delivered iff "
         "H collides on original and altered nonce||payload) with corollary payload_or_nonce_altered under CollisionFree on exactly these two "
         "strings; checksum_only_altered (no hash assumption); length_bounds; truncation; corruption_never_delivered_partial_last_frame — a "
         "LARGER declared length is 'not delivered' ONLY when nothing follows the frame (with following frames the reader consumes their bytes; "
@@ -72,7 +78,7 @@ PROP = dict(
                "keystream offset as invariant), segmentation_independent (after any prefix of the byte stream exactly the complete "
                "frames are delivered and the reader waits), bidirectional, handshake_accept_keys (keys.go modelled; premise: X25519 commutes) + handshake_accept + session_after_handshake against a spec "
                "server written from the protocol description, length_bounds, "
-               "checksum_only_altered, altered_stream_delivered_iff_checksum and altered_body_delivered_iff_collision (exact iff characterisations of delivery, no hash assumption), payload_or_nonce_altered (corollary under collision-freedom on the two strings), truncation, only_pong_consumed. "
+               "checksum_only_altered, delivered_iff_wellformed_frame_prefix (parser = independent frame grammar) and altered_body_delivered_iff_collision (iff), payload_or_nonce_altered (corollary under collision-freedom on the two strings), truncation, only_pong_consumed. "
                "The general 'any alteration is never delivered' stays a def (probabilistic). Tie: every run compares the real code "
                "and the compiled model byte for byte on the same inputs (marshal, ParsePacket, receive loop, send, handshake packet, "
                "params slices), and runs the real client over loopback TCP against an independent server, checking the bytes it "
